@@ -591,10 +591,19 @@ pub fn main(args: &[String]) {
             start_watchdog(20);
             exh_main(&args[1..])
         }
-        "gen" => docgen::main(&args[1..]),
+        "gen" => {
+            if let Err(m) = guard(|| docgen::main(&args[1..])) {
+                eprintln!("generator panicked: {} at {}", m, last_panic_site());
+                std::process::exit(101);
+            }
+        }
         "oracle" => {
             start_watchdog(20);
             oracle::main(&args[1..])
+        }
+        "exhoracle" => {
+            start_watchdog(20);
+            oracle::exh_main(&args[1..])
         }
         "depth" => depth_child(&args[1..]),
         "depthprobe" => depth_probe(&args[1..]),
